@@ -7,6 +7,7 @@ import KinModel.Reads
 import KinModel.Lemmas.C11
 import KinModel.Gen.ReadSites
 import KinModel.Gen.WalkSites
+import KinModel.Gen.LoaderState
 namespace KinModel.Reads
 
 /-! ### first sentence: switch off -/
@@ -38,8 +39,10 @@ Full-strength statement (does NOT hold of the code as it is, see `foreign_base_w
 What is proved: the statement outside the exclusion class `ForeignBase` — runs in which some guarded read goes to
 a location that is NOT the resolution of its reference against the location of the document the reference was found
 in (the loader used a `documentPath` that belongs to another document, and it mattered).  The class was narrowed
-twice: the raw re-read fallback no longer produces it (f972c33; regression `raw_fallback_regression`), and a
-foreign `documentPath` that yields the same location (absolute reference, same directory) is outside it. -/
+three times: the raw re-read fallback no longer produces it (f972c33; regression `raw_fallback_regression`), a
+foreign `documentPath` that yields the same location (absolute reference, same directory) is outside it, and a
+reference text in progress for another kind no longer leaves a child to the second walk (7245059; regression
+`other_kind_regression`). -/
 
 /-- exclusion predicate (decidable): some guarded read went to a location other than the resolution of its
     reference against its own document's location -/
@@ -142,26 +145,64 @@ theorem reads_meet_spec_uniform (inp : Input) (fuel : Nat) (h : Uniform inp) :
   ⟨reads_meet_spec_partial inp fuel (uniform_never_foreign inp fuel h),
    cache_preserves_spec inp _ (reads_meet_spec_partial inp fuel (uniform_never_foreign inp fuel h))⟩
 
+/-! ### histories: several loads on one `Loader`
+
+`history steps fuel` runs the loads one after the other on the same loader: `visitedDocuments` and the components
+already resolved in those documents survive, the in-progress set is reset, `rootLocation` / `rootDir` are assigned but
+never read (table LoaderState).  Each load is judged against ITS OWN root: with the switch off it reads nothing but
+that root, whatever the loader loaded before (a `LoadFromData` after a located load reads nothing at all); with the
+switch on a document loaded by an earlier load of the same loader counts as already loaded (`Input.known`).
+`GoodHist`: the loads share one file universe and a located root's file sits in it at its location. -/
+
+/-- first sentence, every load of every history, full strength -/
+theorem history_switch_off_reads_root_only (store : List (Url × File)) (steps : List Input) (fuel : Nat)
+    (hg : GoodHist store steps) :
+    ∀ e ∈ history steps fuel, e.inp.allowed = false → ∀ u ∈ e.st.log, some u = e.inp.root :=
+  fun e he hoff => (runH_inv store fuel steps [] St.init hg (CarryOK.init store) e he).off hoff
+
+/-- second sentence, every load of every history, outside the exclusion -/
+theorem history_switch_on_reads_are_resolutions_partial (store : List (Url × File)) (steps : List Input) (fuel : Nat)
+    (hg : GoodHist store steps) :
+    ∀ e ∈ history steps fuel, e.st.foreign = false → AllJust e.inp e.st.log :=
+  fun e he hf => (runH_inv store fuel steps [] St.init hg (CarryOK.init store) e he).just hf
+
+/-- both sentences for every load of a history -/
+theorem history_reads_meet_spec_partial (store : List (Url × File)) (steps : List Input) (fuel : Nat)
+    (hg : GoodHist store steps) :
+    ∀ e ∈ history steps fuel, e.st.foreign = false → Spec e.inp e.st.log := by
+  intro e he hf
+  have hI := runH_inv store fuel steps [] St.init hg (CarryOK.init store) e he
+  unfold Spec
+  split
+  · exact hI.just hf
+  · next ha => exact hI.off (by simpa using ha)
+
+/-- a fresh loader is the one-load history -/
+theorem history_single (inp : Input) (fuel : Nat) :
+    (history [inp] fuel).map (fun e => (e.st.log, e.ok)) = [((load { inp with known := [] } fuel).1.log, (load { inp with known := [] } fuel).2)] := rfl
+
 /-! ### the executable spec is the spec -/
 
 theorem justifiedB_iff (inp : Input) (pre : List Url) (u : Url) :
     justifiedB inp pre u = true ↔ Justified inp pre u := by
   unfold justifiedB Justified Loaded
   simp only [Bool.or_eq_true, decide_eq_true_eq, List.any_eq_true, Bool.and_eq_true, List.mem_cons,
-    List.mem_map]
+    List.mem_append, List.mem_map]
   constructor
   · rintro (h | ⟨d, hd, r, hr, hf, hu⟩)
     · exact Or.inl h
     · refine Or.inr ⟨d, ?_, r, hr, hf, hu⟩
-      rcases hd with hd | ⟨x, hx, hd⟩
+      rcases hd with hd | ⟨x, hx, hd⟩ | ⟨x, hx, hd⟩
       · exact Or.inl hd
-      · exact Or.inr ⟨x, hx, hd.symm⟩
+      · exact Or.inr (Or.inl ⟨x, hx, hd.symm⟩)
+      · exact Or.inr (Or.inr ⟨x, hx, hd.symm⟩)
   · rintro (h | ⟨d, hd, r, hr, hf, hu⟩)
     · exact Or.inl h
     · refine Or.inr ⟨d, ?_, r, hr, hf, hu⟩
-      rcases hd with hd | ⟨x, hx, hd⟩
+      rcases hd with hd | ⟨x, hx, hd⟩ | ⟨x, hx, hd⟩
       · exact Or.inl hd
-      · exact Or.inr ⟨x, hx, hd.symm⟩
+      · exact Or.inr (Or.inl ⟨x, hx, hd.symm⟩)
+      · exact Or.inr (Or.inr ⟨x, hx, hd.symm⟩)
 
 theorem allJustFrom_iff (inp : Input) : ∀ (log pre : List Url),
     allJustFrom inp pre log = true ↔ ∀ s u t, log = s ++ u :: t → Justified inp (pre ++ s) u
@@ -237,10 +278,10 @@ theorem foreign_base_witness :
 theorem foreign_base_witness_not_spec : ¬ Spec x0 (load x0 16).1.log := by
   rw [← specB_iff]; simp [foreign_base_witness.2.2]
 
-/-- finding F-C11-1 (c): /r/a/root.json has header R → "b/d.json#/components/headers/H"; /r/a/b/d.json has header
-    H → "x.json"; /r/a/b/x.json is a header whose schema is "x.json" again.  While H is being resolved the text "x.json"
-    is in progress for a HEADER, so the schema's callback ignores the value (a04fe6c) and the schema stays unresolved;
-    the second walk of R's value, with the ROOT's location, then resolves "x.json" against /r/a/. -/
+/-- former witness of F-C11-1 (c) (corpus/C11/foreign_base_second_walk_otherkind.json): /r/a/root.json has header
+    R → "b/d.json#/components/headers/H"; /r/a/b/d.json has header H → "x.json"; /r/a/b/x.json is a header whose schema
+    is "x.json" again.  While the in-progress set was keyed by the text alone, the schema was skipped (text in progress
+    for a HEADER), its callback ignored the value, and the second walk of R's value resolved "x.json" against /r/a/. -/
 def x3 : Input :=
   { allowed := true, entry := .file, rootLoc := some (fileUrl ["r", "a", "root.json"]), rootInStore := true
     rootFile :=
@@ -256,12 +297,36 @@ def x3 : Input :=
             elems := elemView .header [ .mk 1 .schema (some (wholeRef "x.json" ["x.json"])) [] ] }),
         (fileUrl ["r", "a", "x.json"], leafFile) ] }
 
-/-- The model (which agrees with the real loader on this input, corpus/C11/foreign_base_second_walk_otherkind.json)
-reads /r/a/x.json, which no loaded document refers to. -/
-theorem foreign_second_walk_witness :
+/-- Regression for the repaired sub-case (c) (fixed by 7245059: the in-progress set is keyed by kind and text): the
+schema "x.json" is resolved on its own, against /r/a/b/ (the file is read a second time, as a schema); /r/a/x.json is
+not read, no foreign base, model = spec. -/
+theorem other_kind_regression :
     (load x3 16).1.log = [fileUrl ["r", "a", "root.json"], fileUrl ["r", "a", "b", "d.json"],
-                          fileUrl ["r", "a", "b", "x.json"], fileUrl ["r", "a", "x.json"]] ∧
-    ForeignBase x3 16 ∧ specB x3 (load x3 16).1.log = false := by
+                          fileUrl ["r", "a", "b", "x.json"], fileUrl ["r", "a", "b", "x.json"]] ∧
+    (load x3 16).2 = true ∧ ¬ ForeignBase x3 16 ∧ specB x3 (load x3 16).1.log = true := by
+  decide
+
+/-- finding F-C11-1 (d) (corpus/C11/foreign_base_empty_pathitem_second_walk.json): the root has callbacks
+    H → "b/cb.json" and R → "#/components/callbacks/H"; /r/a/b/cb.json has evt → "e.json"; /r/a/b/e.json is empty as a
+    path item, so evt never counts as resolved and the second walk of R's value resolves "e.json" against the root. -/
+def x6 : Input :=
+  { allowed := true, entry := .file, rootLoc := some (fileUrl ["r", "a", "root.json"]), rootInStore := true
+    rootFile :=
+      { parses := true, elems := [], raw := []
+        tops := [ .mk 1 .callback (some (wholeRef "b/cb.json" ["b", "cb.json"])) [],
+                  .mk 2 .callback (some (hashRef "/components/callbacks/H")) [] ]
+        typed := [("/components/callbacks/H", .mk 1 .callback (some (wholeRef "b/cb.json" ["b", "cb.json"])) [])] }
+    store :=
+      [ (fileUrl ["r", "a", "b", "cb.json"],
+          { parses := true, tops := [], typed := [], raw := []
+            elems := elemView .callback [ .mk 1 .pathItem (some (wholeRef "e.json" ["e.json"])) [] ] }),
+        (fileUrl ["r", "a", "b", "e.json"], { leafFile with emptyPI := true }),
+        (fileUrl ["r", "a", "e.json"], leafFile) ] }
+
+theorem foreign_empty_pathitem_witness :
+    (load x6 16).1.log = [fileUrl ["r", "a", "root.json"], fileUrl ["r", "a", "b", "cb.json"],
+                          fileUrl ["r", "a", "b", "e.json"], fileUrl ["r", "a", "e.json"]] ∧
+    ForeignBase x6 16 ∧ specB x6 (load x6 16).1.log = false := by
   decide
 
 /-- former witness of F-C11-1 (b) (corpus/C11/foreign_base_raw_fallback.json): the root's callback C has a path item
@@ -356,7 +421,19 @@ def x5 : Input :=
 
 /-- non-vacuity of the uniform theorems: a three-file universe in one directory is uniform (three reads); the
     witnesses of F-C11-1 are not uniform -/
-example : Uniform x5 ∧ (load x5 16).1.log.length = 3 ∧ ¬ Uniform x0 ∧ ¬ Uniform x3 := by decide
+example : Uniform x5 ∧ (load x5 16).1.log.length = 3 ∧ ¬ Uniform x0 ∧ ¬ Uniform x6 := by decide
+
+/-- a history: `LoadFromFile` of x5's root, then `LoadFromData` of a document with a dangling '#'-reference, switch
+    off in both: the second load reads NOTHING (the raw re-read has no location to read; it must not fall back to the
+    first load's file), then the first file again: its read happens, the cached document is not resolved again -/
+def h1 : List Input :=
+  [ { x5 with allowed := false, store := (fileUrl ["r", "a", "root.json"], x5.rootFile) :: x5.store },
+    { x5 with allowed := false, entry := .data, store := (fileUrl ["r", "a", "root.json"], x5.rootFile) :: x5.store
+              rootFile := { x5.rootFile with tops := [ .mk 1 .schema (some (hashRef "/components/schemas/Nope")) [] ] } },
+    { x5 with allowed := true, store := (fileUrl ["r", "a", "root.json"], x5.rootFile) :: x5.store } ]
+
+example : (history h1 16).map (fun e => (e.st.log, e.ok)) =
+    [ ([fileUrl ["r", "a", "root.json"]], false), ([], false), ([fileUrl ["r", "a", "root.json"]], true) ] := by decide
 
 /-- path algebra: "../b/p.json" against /r/a/root.json -/
 example : resolvePath (some (fileUrl ["r", "a", "root.json"])) ⟨"", "", false, ["..", "b", "p.json"]⟩
@@ -467,6 +544,31 @@ theorem resolver_sites_complete :
     (readSites.filter (fun r => r.callee == "resolveComponent")).length = 10 ∧
     (readSites.filter (fun r => r.callee == "readURL")).length = 3 := by decide
 
+/-! ### what a load leaves behind in the `Loader` (table LoaderState, tie T for histories) -/
+
+open KinModel.Gen in
+/-- `rootLocation` and `rootDir` are assigned (by the first located load, by `LoadFromFile`) and NEVER read: an earlier
+load's location cannot influence a later one through them — the model of histories carries neither.
+`visitedDocuments` is touched by `loadFromDataWithPathInternal` only (created once, never reset: `carry` keeps `docs`);
+the in-progress set, its callbacks and the path are touched by `resetVisitedPathItemRefs`, `visitRef`, `unvisitRef`,
+`shouldVisitRef` only, and every entry point resets them (`carry` clears `inprog` and `pend`). -/
+theorem loader_state_as_modelled : ∀ r ∈ loaderState,
+    (r.field = "rootLocation" → r.fn = "loadFromDataWithPathInternal" ∧ r.access = "assign" ∧ r.detail = "location.Path") ∧
+    (r.field = "rootDir" → r.fn = "LoadFromFile" ∧ r.access = "assign") ∧
+    (r.field = "visitedDocuments" → r.fn = "loadFromDataWithPathInternal") ∧
+    (r.field = "visitedRefs" ∨ r.field = "backtrack" ∨ r.field = "visitedPath" →
+      r.fn = "resetVisitedPathItemRefs" ∨ r.fn = "visitRef" ∨ r.fn = "unvisitRef" ∨ r.fn = "shouldVisitRef") ∧
+    (r.field = "visitedPathItemRefs" → r.fn = "resetVisitedPathItemRefs" ∨ (r.fn = "ResolveRefsIn" ∧ r.access = "read")) := by decide
+
+open KinModel.Gen in
+/-- every load entry point resets the in-progress state; `visitedDocuments` is created once and never reset -/
+theorem loader_state_resets :
+    (∀ f ∈ ["LoadFromURI", "LoadFromData", "LoadFromDataWithPath"],
+      ∃ r ∈ loaderState, r.fn = f ∧ r.field = "resetVisitedPathItemRefs" ∧ r.access = "call") ∧
+    (loaderState.filter (fun r => r.field == "visitedDocuments" && r.access == "assign")).length = 1 ∧
+    (∀ r ∈ loaderState, r.fn = "resetVisitedPathItemRefs" → r.access = "assign" ∧
+      (r.field = "visitedRefs" ∨ r.field = "backtrack" ∨ r.field = "visitedPath" ∨ r.field = "visitedPathItemRefs")) := by decide
+
 /-! ### the walked positions and their order, regenerated from openapi3/loader.go (tie T) -/
 
 open KinModel.Gen in
@@ -483,10 +585,12 @@ theorem walk_sites_as_modelled :
 open KinModel.Gen in
 /-- Every sub-element is resolved with the resolver's current `documentPath` (`location` in `ResolveRefsIn`) — the
 model's `walk … cx` — and the only calls with another location are the recursive calls on the copy `&resolved`,
-which pass `componentPath` (for a path item the re-assigned `documentPath`) — the model's `⟨cdoc, cpath⟩`. -/
+which pass `componentPath` (for a path item the re-assigned `documentPath`) — the model's `⟨cdoc, cpath⟩` — and the
+call on the path item `&p` just loaded from a file that is itself a reference, with the file's location. -/
 theorem walk_location_args : ∀ r ∈ walkSites,
     (r.arg ≠ "&resolved" → r.locArg = (if r.fn = "ResolveRefsIn" then "location" else "documentPath")) ∧
     (r.arg = "&resolved" → r.callee = r.fn ∧
-      r.locArg = (if r.fn = "resolvePathItemRef" then "documentPath" else "componentPath")) := by decide
+      r.locArg = (if r.fn = "resolvePathItemRef" then "documentPath" else "componentPath")) ∧
+    (r.arg = "&p" → r.callee = r.fn ∧ r.fn = "resolvePathItemRef") := by decide
 
 end KinModel.Reads
